@@ -11,13 +11,16 @@ record): `NewStreamData::new`, `NewStreamData::sufficient`, `BroCatli::new_brotl
 `BroCatli::new_with_window_size` (every `u8` argument: the generated state is the model's whenever the model
 returns, and the generated debug-build no-panic condition holds exactly when the model does not panic);
 `BroCatli::append_eof_metablock_to_last_bytes` (every state with a two-byte `last_bytes`: whenever the model
-returns, the generated state is the model's and the generated no-panic condition holds).
+returns, the generated state is the model's and the generated no-panic condition holds);
+`detect_varlen_offset` (every slice of bytes: whenever the model returns — it panics on slices too short for the header and
+on slices longer than 8 bytes, whose `<<` overflows a `u64` — it returns the generated answer: the byte-packing loop, the
+ISLAST / MNIBBLES / MSKIPBYTES walk of the first meta-block header).
 -/
 import BV.Gen.FnC16
 import BV.Model.Concat
 
 namespace BV.Props.C16Gen
-open BV.Gen.FnC16 BV.Concat BV.Concat.Outcome
+open BV.Gen.FnC16 BV.Concat BV.Concat.Outcome BV.Rs
 
 theorem ite_ok {α : Type} (c : Prop) [Decidable c] (a : α) (X : Outcome α) (Y : α) (h : X = Outcome.ok Y) :
     (if c then Outcome.ok a else X) = Outcome.ok (if c then a else Y) := by
@@ -226,11 +229,246 @@ theorem append_eof_ok_generated (g : BroCatli) (x y : Nat) (hl : g.last_bytes = 
   · have d1 : decide (g.last_byte_bit_offset + 2 ≥ 8) = false := by simpa using b1
     simp only [d1, if_false, Bool.false_eq_true]
 
+/-! ## `detect_varlen_offset` -/
+
+def offOf : Option (Nat × Nat) → Nat
+  | some (_, o) => o
+  | none => 0
+
+theorem offOf_ite (c : Prop) [Decidable c] (a b : Option (Nat × Nat)) (ha : offOf a ≤ 14) (hb : offOf b ≤ 14) :
+    offOf (if c then a else b) ≤ 14 := by
+  split <;> assumption
+
+theorem pws_off_aux (bs : List Nat) : offOf (parse_window_size bs) ≤ 14 := by
+  unfold parse_window_size
+  repeat' apply offOf_ite
+  all_goals first | decide | simp [offOf]
+
+/-- body of the generated `for (index, item) in bytes_so_far.iter().enumerate()` loop -/
+def packBody (bs : List Nat) : Nat → Nat → Nat :=
+  fun index bytes =>
+    let item : Nat := (List.getD bs index 0)
+    let bytes : Nat := (bytes ||| ((item <<< (((index * 8) % 18446744073709551616) % 64)) % 18446744073709551616))
+    bytes
+
+theorem pack_loop (site : Site) (bs : List Nat) (hb : ∀ b ∈ bs, b < 256) : ∀ (n i acc r : Nat), i + n = bs.length →
+    packLE site (bs.drop i) i acc = ok r → forRangeAux (packBody bs) n i acc = r := by
+  intro n
+  induction n with
+  | zero =>
+    intro i acc r hi h
+    have : bs.drop i = [] := List.drop_eq_nil_of_le (by omega)
+    rw [this] at h
+    simp only [packLE] at h
+    exact (Outcome.ok.inj h)
+  | succ n ih =>
+    intro i acc r hi h
+    have hlt : i < bs.length := by omega
+    rw [List.drop_eq_getElem_cons hlt] at h
+    unfold packLE at h
+    split at h
+    · cases h
+    rename_i h64
+    unfold forRangeAux
+    have hitem : bs[i] < 256 := hb _ (List.getElem_mem hlt)
+    have e : packBody bs i acc = acc ||| (bs[i] <<< (i * 8)) := by
+      unfold packBody
+      simp only [List.getD_eq_getElem?_getD, List.getElem?_eq_getElem hlt, Option.getD_some]
+      have e1 : ((i * 8) % 18446744073709551616) % 64 = i * 8 := by omega
+      rw [e1]
+      have hpow : 2 ^ (i * 8) ≤ 2 ^ 56 := Nat.pow_le_pow_right (by decide) (by omega)
+      have : bs[i] <<< (i * 8) < 18446744073709551616 := by
+        rw [Nat.shiftLeft_eq]
+        have h1 : bs[i] * 2 ^ (i * 8) ≤ 255 * 2 ^ 56 := Nat.mul_le_mul (by omega) hpow
+        have h2 : (255 : Nat) * 2 ^ 56 < 18446744073709551616 := by decide
+        omega
+      rw [Nat.mod_eq_of_lt this]
+    rw [e]
+    exact ih (i + 1) _ r (by omega) h
+
+theorem pws_off (bs : List Nat) (w off : Nat) (h : parse_window_size bs = some (w, off)) : off ≤ 14 := by
+  have := pws_off_aux bs
+  rw [h] at this
+  exact this
+
+/-- the part of the generated `detect_varlen_offset` behind the ISLAST test (it occurs twice in the generated text) -/
+def genTail (bytes offset : Nat) : Option Nat :=
+  let bytes : Nat := (bytes >>> (1 % 64))
+  let mnibbles : Nat := (bytes &&& 3)
+  let bytes : Nat := (bytes >>> (2 % 64))
+  let offset : Nat := ((offset + 2) % 18446744073709551616)
+  if (mnibbles == 3) then
+    if ((bytes &&& 1) != 0) then
+      none
+    else
+      let bytes : Nat := (bytes >>> (1 % 64))
+      let offset : Nat := ((offset + 1) % 18446744073709551616)
+      let mskipbytes : Nat := (bytes &&& ((((1 <<< (2 % 64)) % 18446744073709551616) + 18446744073709551616 - 1) % 18446744073709551616))
+      let offset : Nat := ((offset + 2) % 18446744073709551616)
+      let offset : Nat := ((offset + ((mskipbytes * 8) % 18446744073709551616)) % 18446744073709551616)
+      (some offset)
+  else
+    let mnibbles : Nat := ((mnibbles + 4) % 18446744073709551616)
+    let offset : Nat := ((offset + ((mnibbles * 4) % 18446744073709551616)) % 18446744073709551616)
+    let bytes : Nat := (bytes >>> (((mnibbles * 4) % 18446744073709551616) % 64))
+    let offset : Nat := ((offset + 1) % 18446744073709551616)
+    if ((bytes &&& 1) == 0) then
+      none
+    else
+      (some offset)
+
+theorem detect_unfold (bs : List Nat) :
+    detect_varlen_offset bs =
+      (if (Option.isSome (parse_window_size bs)) then
+        (let bytes : Nat := (forRangeAux (packBody bs) (bs.length - 0) 0 0) >>> ((Option.getD (parse_window_size bs) (0, 0)).2 % 64)
+         let offset : Nat := (((Option.getD (parse_window_size bs) (0, 0)).2 + 1) % 18446744073709551616)
+         if ((bytes &&& 1) != 0) then
+           (let bytes : Nat := (bytes >>> (1 % 64))
+            let offset : Nat := ((offset + 1) % 18446744073709551616)
+            if ((bytes &&& 1) != 0) then (some offset) else genTail bytes offset)
+         else genTail bytes offset)
+      else none) := rfl
+
+/-- the model's tail on the same numbers -/
+def modelTail (bytes offset : Nat) : Outcome (Option Nat) :=
+  let bytes := bytes >>> 1
+  let mnibbles := bytes &&& 3
+  let bytes := bytes >>> 2
+  let offset := offset + 2
+  if mnibbles = 3 then
+    if bytes &&& 1 ≠ 0 then ok none else
+    let bytes := bytes >>> 1
+    let offset := offset + 1
+    let mskipbytes := bytes &&& ((1 <<< 2) - 1)
+    let offset := offset + 2
+    let offset := offset + mskipbytes * 8
+    ok (some offset)
+  else
+    let mnibbles := mnibbles + 4
+    let offset := offset + mnibbles * 4
+    let bytes := bytes >>> (mnibbles * 4)
+    let offset := offset + 1
+    if bytes &&& 1 = 0 then ok none else ok (some offset)
+
+theorem tail_eq (bytes offset : Nat) (ho : offset ≤ 100) : modelTail bytes offset = ok (genTail bytes offset) := by
+  unfold modelTail genTail
+  have hm : (bytes >>> 1) &&& 3 ≤ 3 := Nat.and_le_right
+  have e1 : (1 % 64) = 1 := rfl
+  have e2 : (2 % 64) = 2 := rfl
+  have emask : ((((1 <<< (2 % 64)) % 18446744073709551616) + 18446744073709551616 - 1) % 18446744073709551616) = (1 <<< 2) - 1 := by decide
+  simp only [e1, e2, emask]
+  generalize hmn : (bytes >>> 1) &&& 3 = mn at hm
+  by_cases h3 : mn = 3
+  · have g3 : (mn == 3) = true := by simpa using h3
+    rw [if_pos h3]
+    simp only [g3, if_true]
+    by_cases hb : (bytes >>> 1 >>> 2) &&& 1 = 0
+    · have gb : (((bytes >>> 1 >>> 2) &&& 1) != 0) = false := by simp [hb]
+      have hs : (bytes >>> 1 >>> 2 >>> 1) &&& ((1 <<< 2) - 1) ≤ 3 := Nat.and_le_right
+      rw [if_neg (by omega)]
+      simp only [gb, if_false, Bool.false_eq_true]
+      generalize (bytes >>> 1 >>> 2 >>> 1) &&& ((1 <<< 2) - 1) = ms at hs
+      have e : ((((offset + 2) % 18446744073709551616 + 1) % 18446744073709551616 + 2) % 18446744073709551616 + ms * 8 % 18446744073709551616) % 18446744073709551616 =
+          offset + 2 + 1 + 2 + ms * 8 := by omega
+      rw [e]
+    · have gb : (((bytes >>> 1 >>> 2) &&& 1) != 0) = true := by rw [bne_iff_ne]; exact hb
+      rw [if_pos hb]
+      simp only [gb, if_true]
+  · have g3 : (mn == 3) = false := by simpa using h3
+    rw [if_neg h3]
+    simp only [g3, if_false, Bool.false_eq_true]
+    have em : (mn + 4) % 18446744073709551616 = mn + 4 := by omega
+    have em4 : ((mn + 4) * 4) % 18446744073709551616 = (mn + 4) * 4 := by omega
+    have em64 : ((mn + 4) * 4) % 64 = (mn + 4) * 4 := by omega
+    simp only [em, em4, em64]
+    by_cases hb : (bytes >>> 1 >>> 2 >>> ((mn + 4) * 4)) &&& 1 = 0
+    · have gb : (((bytes >>> 1 >>> 2 >>> ((mn + 4) * 4)) &&& 1) == 0) = true := by simp [hb]
+      rw [if_pos hb]
+      simp only [gb, if_true]
+    · have gb : (((bytes >>> 1 >>> 2 >>> ((mn + 4) * 4)) &&& 1) == 0) = false := by rw [beq_eq_false_iff_ne]; exact hb
+      rw [if_neg hb]
+      simp only [gb, if_false, Bool.false_eq_true]
+      have e : (((offset + 2) % 18446744073709551616 + (mn + 4) * 4) % 18446744073709551616 + 1) % 18446744073709551616 = offset + 2 + (mn + 4) * 4 + 1 := by omega
+      rw [e]
+
+theorem model_unfold (bs : List Nat) (w off0 bytes0 : Nat)
+    (h1 : parseWindowSize bs = ok (some (w, off0))) (h2 : packLE .dvoShl bs 0 0 = ok bytes0) :
+    detectVarlenOffset bs =
+      (if (bytes0 >>> off0) &&& 1 ≠ 0 then
+        (if (bytes0 >>> off0 >>> 1) &&& 1 ≠ 0 then ok (some (off0 + 1 + 1)) else modelTail (bytes0 >>> off0 >>> 1) (off0 + 1 + 1))
+       else modelTail (bytes0 >>> off0) (off0 + 1)) := by
+  unfold detectVarlenOffset
+  rw [h1]
+  simp only [Outcome.bind, h2]
+  by_cases b1 : (bytes0 >>> off0) &&& 1 ≠ 0
+  · have d1 : decide ((bytes0 >>> off0) &&& 1 ≠ 0) = true := decide_eq_true b1
+    by_cases b2 : (bytes0 >>> off0 >>> 1) &&& 1 ≠ 0
+    · simp only [d1, ↓reduceIte]
+      rw [if_pos ⟨trivial, b2⟩, if_pos b1, if_pos b2]
+    · simp only [d1, ↓reduceIte, modelTail]
+      rw [if_neg (fun hh => b2 hh.2), if_pos b1, if_neg b2]
+  · have d1 : decide ((bytes0 >>> off0) &&& 1 ≠ 0) = false := decide_eq_false b1
+    simp only [d1, ↓reduceIte, Bool.false_eq_true, modelTail]
+    rw [if_neg (fun hh => nomatch hh.1), if_neg b1]
+
+/-- `detect_varlen_offset` on byte slices: whenever the model returns (it panics on slices shorter than the header needs
+and on slices longer than 8 bytes, whose `<<` overflows), it returns the generated function's answer -/
+theorem detect_varlen_offset_generated (bs : List Nat) (hb : ∀ b ∈ bs, b < 256) (r : Option Nat)
+    (h : detectVarlenOffset bs = ok r) : r = detect_varlen_offset bs := by
+  cases hpw : parseWindowSize bs with
+  | panic s => unfold detectVarlenOffset at h; rw [hpw] at h; simp [Outcome.bind] at h
+  | ok pw =>
+    have hgen := parse_window_size_generated_of_ok bs pw hpw
+    rw [detect_unfold, ← hgen]
+    cases pw with
+    | none =>
+      unfold detectVarlenOffset at h
+      rw [hpw] at h
+      simp only [Outcome.bind] at h
+      have := Outcome.ok.inj h
+      rw [← this]
+      rfl
+    | some p =>
+      obtain ⟨w, off0⟩ := p
+      have hoff : off0 ≤ 14 := pws_off bs w off0 hgen.symm
+      cases hpk : packLE .dvoShl bs 0 0 with
+      | panic s => unfold detectVarlenOffset at h; rw [hpw] at h; simp [Outcome.bind, hpk] at h
+      | ok bytes0 =>
+        rw [model_unfold bs w off0 bytes0 hpw hpk] at h
+        have hloop : forRangeAux (packBody bs) (bs.length - 0) 0 0 = bytes0 :=
+          pack_loop .dvoShl bs hb (bs.length - 0) 0 0 bytes0 (by omega) (by simpa using hpk)
+        simp only [Option.isSome_some, if_true, Option.getD_some, hloop]
+        have eo : off0 % 64 = off0 := by omega
+        have eo1 : (off0 + 1) % 18446744073709551616 = off0 + 1 := by omega
+        have eo2 : (off0 + 1 + 1) % 18446744073709551616 = off0 + 1 + 1 := by omega
+        have e164 : (1 % 64) = 1 := rfl
+        simp only [eo, eo1, eo2, e164]
+        by_cases b1 : (bytes0 >>> off0) &&& 1 ≠ 0
+        · have g1 : (((bytes0 >>> off0) &&& 1) != 0) = true := by rw [bne_iff_ne]; exact b1
+          rw [if_pos b1] at h
+          simp only [g1, if_true]
+          by_cases b2 : (bytes0 >>> off0 >>> 1) &&& 1 ≠ 0
+          · have g2 : (((bytes0 >>> off0 >>> 1) &&& 1) != 0) = true := by rw [bne_iff_ne]; exact b2
+            rw [if_pos b2] at h
+            simp only [g2, if_true]
+            exact (Outcome.ok.inj h).symm
+          · have g2 : (((bytes0 >>> off0 >>> 1) &&& 1) != 0) = false := by
+              rw [Bool.eq_false_iff]; intro hh; rw [bne_iff_ne] at hh; exact b2 hh
+            rw [if_neg b2, tail_eq _ _ (by omega)] at h
+            simp only [g2, if_false, Bool.false_eq_true]
+            exact (Outcome.ok.inj h).symm
+        · have g1 : (((bytes0 >>> off0) &&& 1) != 0) = false := by
+            rw [Bool.eq_false_iff]; intro hh; rw [bne_iff_ne] at hh; exact b1 hh
+          rw [if_neg b1, tail_eq _ _ (by omega)] at h
+          simp only [g1, if_false, Bool.false_eq_true]
+          exact (Outcome.ok.inj h).symm
+
 example : parse_window_size [0x5b, 0] = some (22, 4) := by decide
 example : parse_window_size [0x11, 0x1e] = some (30, 14) := by decide
 example : parse_window_size [0x11, 0x09] = none := by decide
 example : (toState (new_with_window_size 22)).last_bytes = (0x3b, 0) := by decide
 example : new_with_window_size_ok 9 = false := by decide
+example : detectVarlenOffset [0x5b, 0, 0, 0] = .ok (detect_varlen_offset [0x5b, 0, 0, 0]) := by decide +kernel
 example : (appendEofMetablockToLastBytes (toState { (new_with_window_size 22) with last_byte_sanitized := true, last_byte_bit_offset := 4 })).isPanic = false := by decide
 
 end BV.Props.C16Gen
